@@ -20,6 +20,7 @@ pub const SIG_SIGNALS: &[(&str, &[T])] = &[
     ("firedD", &[T::Double]),
     ("firedP", &[T::Ptr("VSrc")]),
     ("trig", &[T::Bool]),
+    ("rng", &[T::Int, T::Int]),
 ];
 
 #[derive(Clone, Debug)]
